@@ -319,3 +319,36 @@ def decorator_frames(repo: Repo, reg, prop):
             out.append({"oid": f"{key}:frame:decorators[{tree}]", "kind": "frame", "status": "refuted" if bad else "discharged",
                         "witness": {"decorators": bad} if bad else None})
     return out
+
+
+# the documented exception hierarchy (docs/exceptions.md of the package; the property C15 quotes it: "a TimeoutException,
+# NetworkError, ProtocolError or ProxyError (sub)class, or UnsupportedProtocol - whose class matches the cause")
+DOCUMENTED_EXCEPTIONS = {
+    "ConnectionNotAvailable": ["Exception"], "ProxyError": ["Exception"], "UnsupportedProtocol": ["Exception"],
+    "ProtocolError": ["Exception"], "RemoteProtocolError": ["ProtocolError"], "LocalProtocolError": ["ProtocolError"],
+    "TimeoutException": ["Exception"], "PoolTimeout": ["TimeoutException"], "ConnectTimeout": ["TimeoutException"],
+    "ReadTimeout": ["TimeoutException"], "WriteTimeout": ["TimeoutException"],
+    "NetworkError": ["Exception"], "ConnectError": ["NetworkError"], "ReadError": ["NetworkError"], "WriteError": ["NetworkError"],
+}
+
+
+def exception_hierarchy_frames(repo: Repo, reg, prop):
+    """Every `except X` clause and every exception map of the package is verified against the class table READ FROM
+    httpcore/_exceptions.py; the callers' view ("class matches the cause", what `except httpcore.ReadError` catches) is the
+    documented table.  Obligation per class: its bases are the documented ones - a timeout that also IS a network error is
+    swallowed by `except WriteError: pass` in the HTTP/1.1 send path (seed C16-w5-1) and answers the wrong handler of a caller."""
+    out = []
+    mod = repo.modules.get("httpcore._exceptions")
+    have = {}
+    if mod is not None:
+        for name, ci in mod.classes.items():
+            have[name] = [b.rsplit(".", 1)[-1] for b in ci.bases]
+    for name, bases in sorted(DOCUMENTED_EXCEPTIONS.items()):
+        got = have.get(name)
+        ok = got is not None and got == bases
+        out.append({"oid": f"httpcore._exceptions.{name}:frame:documented_bases", "kind": "frame", "status": "discharged" if ok else "refuted",
+                    "witness": None if ok else {"documented_bases": bases, "bases_in_this_tree": got}})
+    extra = sorted(set(have) - set(DOCUMENTED_EXCEPTIONS))
+    out.append({"oid": "httpcore._exceptions:frame:no_undocumented_exception_class", "kind": "frame", "status": "discharged" if not extra else "refuted",
+                "witness": {"classes": extra} if extra else None})
+    return out
